@@ -22,6 +22,7 @@ NOT_APPLICABLE["C07"] = ("requires symbolic execution of real public-key key gen
 HASHER = ["util::NormalizingHasher::new", "util::NormalizingHasher::hash_buf", "util::NormalizingHasher::done"]
 NREADER = ["normalize_lines::NormalizedReader::{new,read,fill_buffer,cleanup_buffer}", "normalize_lines::replace_newlines", "util::fill_buffer"]
 PROPS["C14"] = {
+    "substitutions": [("src/normalize_lines.rs", "const BUF_SIZE: usize = 1024;", "const BUF_SIZE: usize = 8;")],
     "level_text": "Bounded model checking of the real canonicalisation code: for every chunk content within the stated "
                   "lengths and every reachable carry state, the SAT solver shows the streaming hasher's transcript equals a "
                   "byte-at-a-time reference transducer; one inductive step covers all chunkings.",
@@ -32,7 +33,7 @@ PROPS["C14"] = {
     "bounds": "hasher: one chunk of L<=4 (quick) / L<=6 (thorough) arbitrary bytes from pre-state in {fresh, "
               "after-CR}, plus two-chunk compositions",
     "outside": "memchr SIMD paths (Kani compiles the portable fallback); inputs longer than the stated bounds",
-    "assumptions": ["hash primitive replaced by an injective transcript recorder (ideal hash)"],
+    "assumptions": ["hash primitive replaced by an injective transcript recorder (ideal hash)", "c14_reader_*: NormalizedReader's BUF_SIZE scaled from 1024 to 8 in the checked copy (internal buffer 4 octets instead of 512); the edge logic is parametric in BUF_SIZE"],
     "harnesses": [
         H("c14_hasher_step_%d" % l, "c14_hasher", "quick" if l <= 4 else "thorough", 600,
           "pre-state x one chunk of %d symbolic bytes x done(): transcript == byte-at-a-time reference" % l,
@@ -48,11 +49,9 @@ PROPS["C14"] = {
           "replace_newlines(x, CRLF) == reference for every x of length %d" % l,
           ["normalize_lines::replace_newlines"], "L=%d" % l) for l in range(0, 6)
     ] + [
-        H("c14_reader_small_3", "c14_norm", "quick", 600, "NormalizedReader on every 3-byte source", NREADER, "N=3"),
-        H("c14_reader_small_4", "c14_norm", "thorough", 900, "NormalizedReader on every 4-byte source", NREADER, "N=4"),
-        H("c14_reader_edge_512", "c14_norm", "quick", 900, "512-byte source, symbolic bytes 509..511 (end of a full buffer)", NREADER, "N=512, 3 symbolic bytes"),
-        H("c14_reader_edge_514", "c14_norm", "quick", 900, "514-byte source, symbolic bytes 510..512 straddling the 512 edge", NREADER, "N=514, 3 symbolic bytes"),
-        H("c14_reader_edge_1026", "c14_norm", "thorough", 1800, "1026-byte source, symbolic bytes 1022..1024 straddling the second edge", NREADER, "N=1026, 3 symbolic bytes"),
+        H("c14_reader_3", "c14_norm", "thorough", 1800, "NormalizedReader (internal buffer scaled to 4) on every 3-byte source", NREADER, "N=3"),
+        H("c14_reader_4", "c14_norm", "thorough", 1800, "NormalizedReader (scaled) on every 4-byte source: source ends at the buffer edge", NREADER, "N=4"),
+        H("c14_reader_5", "c14_norm", "thorough", 2400, "NormalizedReader (scaled) on every 5-byte source: CR|LF across the buffer edge", NREADER, "N=5"),
     ] + [
         H("c14_crlf_%d_%d" % ab, "c14_lit", "quick" if sum(ab) <= 4 else "thorough", 600,
           "CrLfCheckReader over chunks of %d+%d symbolic bytes: accepts iff no bare LF, data unchanged" % ab,
@@ -241,8 +240,20 @@ PROPS["C04"] = {
     "outside": "stack depth of nested containers; inputs longer than the harness lengths; panics inside Debug formatting; the primitives",
     "assumptions": [FMT_STUBS],
     "harnesses": [
-        H("c04_seipdv2_header_octets", "c04_aead", "quick", 1200, "StreamDecryptor::new_rfc9580 for every cipher/AEAD/chunk octet with a key of matching length: no panic",
-          ["crypto::aead::StreamDecryptor::new_rfc9580", "crypto::aead::aead_setup_rfc9580", "crypto::aead::AeadAlgorithm::{nonce_size,tag_size}", "crypto::sym::SymmetricKeyAlgorithm::key_size"], "3 symbolic octets"),
+        H("c04_seipdv2_aead0", "c04_aead", "quick", 600, "StreamDecryptor::new_rfc9580 with AEAD octet 0, every chunk-size octet, key of matching length: Ok/Err, no panic",
+          ["crypto::aead::StreamDecryptor::new_rfc9580", "crypto::aead::aead_setup_rfc9580", "crypto::aead::AeadAlgorithm::{nonce_size,tag_size}"], "AEAD octet 0, chunk octet symbolic"),
+        H("c04_seipdv2_aead1", "c04_aead", "thorough", 600, "StreamDecryptor::new_rfc9580 with AEAD octet 1, every chunk-size octet, key of matching length: Ok/Err, no panic",
+          ["crypto::aead::StreamDecryptor::new_rfc9580", "crypto::aead::aead_setup_rfc9580", "crypto::aead::AeadAlgorithm::{nonce_size,tag_size}"], "AEAD octet 1, chunk octet symbolic"),
+        H("c04_seipdv2_aead2", "c04_aead", "quick", 600, "StreamDecryptor::new_rfc9580 with AEAD octet 2, every chunk-size octet, key of matching length: Ok/Err, no panic",
+          ["crypto::aead::StreamDecryptor::new_rfc9580", "crypto::aead::aead_setup_rfc9580", "crypto::aead::AeadAlgorithm::{nonce_size,tag_size}"], "AEAD octet 2, chunk octet symbolic"),
+        H("c04_seipdv2_aead3", "c04_aead", "thorough", 600, "StreamDecryptor::new_rfc9580 with AEAD octet 3, every chunk-size octet, key of matching length: Ok/Err, no panic",
+          ["crypto::aead::StreamDecryptor::new_rfc9580", "crypto::aead::aead_setup_rfc9580", "crypto::aead::AeadAlgorithm::{nonce_size,tag_size}"], "AEAD octet 3, chunk octet symbolic"),
+        H("c04_seipdv2_aead4", "c04_aead", "quick", 600, "StreamDecryptor::new_rfc9580 with AEAD octet 4, every chunk-size octet, key of matching length: Ok/Err, no panic",
+          ["crypto::aead::StreamDecryptor::new_rfc9580", "crypto::aead::aead_setup_rfc9580", "crypto::aead::AeadAlgorithm::{nonce_size,tag_size}"], "AEAD octet 4, chunk octet symbolic"),
+        H("c04_seipdv2_aead100", "c04_aead", "quick", 600, "StreamDecryptor::new_rfc9580 with AEAD octet 100, every chunk-size octet, key of matching length: Ok/Err, no panic",
+          ["crypto::aead::StreamDecryptor::new_rfc9580", "crypto::aead::aead_setup_rfc9580", "crypto::aead::AeadAlgorithm::{nonce_size,tag_size}"], "AEAD octet 100, chunk octet symbolic"),
+        H("c04_seipdv2_aead200", "c04_aead", "thorough", 600, "StreamDecryptor::new_rfc9580 with AEAD octet 200, every chunk-size octet, key of matching length: Ok/Err, no panic",
+          ["crypto::aead::StreamDecryptor::new_rfc9580", "crypto::aead::aead_setup_rfc9580", "crypto::aead::AeadAlgorithm::{nonce_size,tag_size}"], "AEAD octet 200, chunk octet symbolic"),
     ],
 }
 
